@@ -1506,7 +1506,7 @@ class SpaceManager(SharedSpaceOperations):
             basevalue = value._impl.idstr
             for subspace in self._get_subs(space):
                 if name in subspace.own_refs:
-                    break
+                    continue
                 else:
                     subvalue = self._graph.get_relative(
                         subspace.idstr, space.idstr,
@@ -1531,13 +1531,21 @@ class SpaceManager(SharedSpaceOperations):
         for subspace in self._get_subs(space):
             is_relative = False
             if name in subspace.own_refs:
-                break
+                subref = subspace.own_refs[name]
+                if (subref.is_defined()
+                        or subref.defined_bases[0] is not result):
+                    continue    # Not derived from the new ref
             if isinstance(value, Interface) and value._is_valid():
                 if refmode == "auto" or refmode == "relative":
                     is_relative, value = self.get_relative_interface(
                         subspace, space.own_refs[name])
-            ref = subspace.on_create_ref(name, value, is_derived=True,
-                                   refmode=refmode)
+            if name in subspace.own_refs:   # Derived from another base so far
+                ref = subspace.on_change_ref(name, value, is_derived=True,
+                                             refmode=refmode,
+                                             is_relative=is_relative)
+            else:
+                ref = subspace.on_create_ref(name, value, is_derived=True,
+                                             refmode=refmode)
             ref.is_relative = is_relative
 
         return result
